@@ -75,6 +75,29 @@ Print Assumptions C07_validate_idempotent_refuted.
 (* ------------------------------------------------------------------------------------------- *)
 (* the implicit nodes are exact                                                                  *)
 (* ------------------------------------------------------------------------------------------- *)
+(* For freshly parsed input - every node new and explicit, no empty non-presence container, no two siblings in different
+   cases of a choice (Implicit.freshb; what LYD_PARSE_ONLY yields for a document without default attributes), canonical -
+   a successful validation reaches THE normal form: the default-flagged nodes of the result are exactly the defaults RFC 7950
+   requires for its explicit nodes (normalb), and the explicit content is that of the input (nothing explicit is deleted,
+   nothing explicit is made up). Partial: histories (validation after edits of a validated tree) are not covered by a proof -
+   the two deviations below live there; the correspondence run evaluates normalb on every tree of every generated history. *)
+Theorem C07_implicit_exact_partial : forall sch f g d,
+  chc_okb sch = true -> Canon sch f -> freshb sch f = true -> f <> [] ->
+  validate_all sch f = Ok (g, d) -> normalb sch g = true /\ strip g = strip f.
+Proof. exact validate_fresh_normal. Qed.
+Print Assumptions C07_implicit_exact_partial.
+
+(* parse, validate, validate: the second validation of freshly parsed data changes nothing and reports nothing *)
+Theorem C07_validate_idempotent_fresh : forall sch f g d g' d',
+  chc_okb sch = true -> Canon sch f -> freshb sch f = true -> f <> [] ->
+  validate_all sch f = Ok (g, d) -> validate_all sch g = Ok (g', d') -> g' = g /\ d' = [].
+Proof.
+  intros sch f g d g' d' Hk Hc Hf Hne H1 H2.
+  destruct (validate_fresh_normal sch f g d Hk Hc Hf Hne H1) as [Hn _].
+  exact (validate_normal_fixpoint sch g g' d' Hk Hn H2).
+Qed.
+Print Assumptions C07_validate_idempotent_fresh.
+
 (* refuted in general, witness 1 (dflt-nested-case-leftover): the tree above after freeing e validates to itself; its
    explicit content is the single leaf w, yet the defaults d (case a) and y (case a / n1) are there *)
 Theorem C07_implicit_exact_refuted_nested_case :
@@ -197,7 +220,7 @@ Print Assumptions C07_wd_modes_rfc6243_refuted.
    sound and consistent for printing, and validating it again changes nothing *)
 Example C07_hypotheses_satisfiable :
   chc_okb w1_sch = true /\ schema_okb w1_sch = true /\ sids_uniqb w1_sch = true /\ keys_plainb w1_sch = true /\
-  canonb w1_sch None w1_parsed = true /\
+  canonb w1_sch None w1_parsed = true /\ freshb w1_sch w1_parsed = true /\
   (exists d, validate_all w1_sch w1_parsed = Ok (w1_valid, d) /\ d <> []) /\
   normalb w1_sch w1_valid = true /\ flag_soundb w1_sch w1_valid = true /\ wd_wf_forest w1_sch w1_valid = true /\
   validate_all w1_sch w1_valid = Ok (w1_valid, []).
